@@ -4,6 +4,9 @@
 //! Answer:      `ok`                                   no diagnostics at all
 //!              `E <line>:<Kind>[:<hex payload>] ...`  every diagnostic, sorted (BTreeSet order of ErrorSet)
 //!              `panic <hex message>`                  the checker/parser panicked
+//! Every answer but `panic` ends with ` #A <entry>:<hex>…`: one item per call of `is_additional_pattern_useful`
+//! (`useful`) / `incomplete_counterexample` (`counterexample`), hex = the abstract patterns of the existing rows
+//! rendered by the hook `samlang_checker::verif_hooks_c07` and joined by `;`.
 //! Kinds that matter to C07: `NonExhaustiveMatch` (payload = pretty-printed counterexample),
 //! `UselessPattern` (payload `1` = irrefutable if-let pattern, `0` = covered), everything else is
 //! reported by its Debug variant name only.
@@ -25,9 +28,15 @@ fn check(source: &str) -> String {
   let module =
     samlang_parser::parse_source_module_from_text(source, mod_ref, &mut heap, &mut error_set);
   let sources = HashMap::from([(mod_ref, module)]);
+  let _ = samlang_checker::verif_hooks_c07::take();
   let _ = samlang_checker::type_check_sources(&sources, &mut error_set);
+  // hook (cfg(samlang_verif)): the abstract pattern lists the checker handed to the analysis
+  let mut abs = String::new();
+  for (entry, nodes) in samlang_checker::verif_hooks_c07::take() {
+    abs.push_str(&format!(" {entry}:{}", hex(nodes.join(";").as_bytes())));
+  }
   if !error_set.has_errors() {
-    return "ok".to_string();
+    return format!("ok #A{abs}");
   }
   let mut out = vec!["E".to_string()];
   for e in error_set.errors() {
@@ -43,7 +52,7 @@ fn check(source: &str) -> String {
     };
     out.push(item);
   }
-  out.join(" ")
+  format!("{} #A{abs}", out.join(" "))
 }
 
 fn main() {
